@@ -23,6 +23,8 @@ def gen(rng):
     nlev = rng.randint(2, 3)                       # surface + upper levels
     sfc = rng.sample(SFC, rng.randint(1, 2))
     lay = rng.sample(LAY, rng.randint(1, 3))
+    if len(lay) >= 2 and lay == sorted(lay):
+        lay = lay[::-1]             # the order of the index record, not the alphabet (real files: HGTS TEMP UWND VWND WWND RELH)
     offs = [0]
     for _ in range(rng.randint(1, 2)):
         offs.append(offs[-1] + rng.choice([1, 3, 6, 24, 30]))
